@@ -15,6 +15,7 @@
   comments; `feed`, `lastCh` — scanner bookkeeping and look-ahead after reading some runes;
   `tick`, `NotMacro`, `continueWith` — the standard side conditions of evaluator laws.
 -/
+import LispModel.Proofs.LNotLaws
 import LispModel.Proofs.EvalErase
 import LispModel.Proofs.Layout
 import LispModel.Proofs.Positions
@@ -291,5 +292,24 @@ theorem baseline_trailing_comment_counterexample :
      | .ok ts => some (ts.map (·.text)) | .error _ _ => none) = some [[40], [100, 111], [49]] ∧
     (match Read.readStr {} (bytes% "(do 1 ;c nil)") with | .error e => some e | .ok _ => none) =
       some (.eof ")") := by decide
+
+
+/-! ## L-notation (lnotation/lnotation.go; model LispModel/LNot.lean, engine lnot) -/
+
+open LispModel.LNot LispModel.Proofs.LNotLaws in
+/-- an AST built with the L-notation constructors carries no source position anywhere -/
+theorem lnotation_ast_has_no_positions (t : LTerm) : noPos (build t) = true := build_has_no_positions t
+
+open LispModel.LNot LispModel.Proofs.LNotLaws in
+/-- **the text route and the L-notation route deliver the same AST**: for every well-formed term, READ of the term
+    written as text succeeds and, positions erased, IS the AST the constructors build (same nodes, same entries) -/
+theorem lnotation_text_route_same_ast (cfg : Read.Cfg) (hphs : cfg.phs = none) (t : LTerm) (h : wf t = true) :
+    ∃ v, readText cfg t = .ok v ∧ stripPos v = build t := read_text_eq_build cfg hphs t h
+
+open LispModel.LNot LispModel.Proofs.LNotLaws in
+/-- positions never take part in `=` -/
+theorem equality_ignores_erasing_positions (a b : Val) :
+    equalQ (stripPos a) b = equalQ a b ∧ equalQ a (stripPos b) = equalQ a b ∧
+    equalQ (stripPos a) (stripPos b) = equalQ a b := equalQ_ignores_positions a b
 
 end LispModel.Props.C19
